@@ -6,7 +6,7 @@ from collections import Counter
 import vlib
 from vlib import coq_bool, coq_list, coq_option
 
-HEADER = ('From Teleport Require Import Base.Bytes Base.Outcome Base.AList Model.Registry Model.RegistryCheck.\n'
+HEADER = ('From Teleport Require Import Base.Bytes Base.Outcome Base.AList Model.Registry Model.RegistryExport Model.RegistryCheck.\n'
           'Local Open Scope N_scope.\n')
 
 KINDS = {
@@ -20,6 +20,12 @@ KINDS = {
     8: 'model and code disagree on MintingEnabled for some (token, denomination)',
     9: 'the model asked the GetID / Address.Hex oracle something the implementation never computed',
     10: 'the aggregate store contains keys outside the three modelled prefixes',
+    11: 'model and code disagree on whether GenesisState.Validate accepts the exported registry (ExportGenesis after the step)',
+    12: 'internal: the branch classifier (Model/RegistryExport.v) disagrees with the model\'s own step about the outcome class',
+    13: 'an observed value of the real TokenPair.GetID / Address.Hex violates the oracle hypotheses of the theorems (empty or '
+        'colliding id on hex-address texts; Address.Hex text that is no hex address or does not parse back)',
+    14: 'an executed operation violates the environment hypotheses of the theorems (RegisterCoin deployment address already in '
+        'the ERC20 index / not 20 bytes; genesis imported into a non-empty registry)',
     21: 'the registry is not self-consistent (a pair not reachable by its address or by one of its denominations, '
         'a dangling index entry, a wrong pair id, a denomination / contract in two pairs)',
     22: 'a registered denomination reads as a hex address (GetTokenPairID resolves it through the address index)',
@@ -30,7 +36,44 @@ KINDS = {
         'although the operation did not explicitly remove or disable that pair',
     27: 'bank metadata of a denomination was removed',
     28: 'a proposal handler / genesis validation panicked',
+    29: 'ExportGenesis of the registry does not pass GenesisState.Validate, panics, or InitGenesis of it into an empty registry '
+        'does not reproduce the three store prefixes (the chain could not restart from its own export)',
+    30: 'a registered denomination is not a valid bank denomination, or a key of the address index is not 20 bytes long',
 }
+
+# branch codes of Model/RegistryExport.v [branch]: which branch of the code a step took
+BRANCHES = {
+    1: 'RegisterCoin refused by ValidateBasic', 2: 'RegisterCoin module disabled', 3: 'RegisterCoin base reads as hex address',
+    4: 'RegisterCoin base is the EVM denom', 5: 'RegisterCoin base already registered', 6: 'RegisterCoin no supply',
+    7: 'RegisterCoin stored metadata differs', 8: 'RegisterCoin ok (stored metadata equal: needs metadata without units)',
+    9: 'RegisterCoin ok (new metadata)',
+    11: 'AddCoin refused by ValidateBasic', 12: 'AddCoin module disabled', 13: 'AddCoin base reads as hex address',
+    14: 'AddCoin base is the EVM denom', 15: 'AddCoin base already registered', 16: 'AddCoin no supply',
+    17: 'AddCoin stored metadata differs', 18: 'AddCoin contract not registered', 19: 'AddCoin ok onto a 1-denom pair',
+    20: 'AddCoin ok onto a multi-denom pair',
+    21: 'RegisterERC20 refused by ValidateBasic', 22: 'RegisterERC20 module disabled', 23: 'RegisterERC20 contract already registered',
+    24: 'RegisterERC20 QueryERC20 fails', 25: 'RegisterERC20 metadata exists', 26: 'RegisterERC20 denom registered (needs a genesis '
+        'pair listing aggregate/<address> without metadata)', 27: 'RegisterERC20 generated metadata invalid', 28: 'RegisterERC20 ok',
+    31: 'Toggle refused by ValidateBasic', 32: 'Toggle token not registered', 33: 'Toggle id without pair (inconsistent registry only)',
+    34: 'Toggle ok (disables)', 35: 'Toggle ok (enables)',
+    41: 'Update refused by ValidateBasic', 42: 'Update old address not registered', 43: 'Update new address already registered',
+    44: 'Update id without pair / pair without denoms (inconsistent registry only)', 45: 'Update no metadata for Denoms[0]',
+    46: 'Update metadata without units (unvalidated metadata only)', 47: 'Update QueryERC20 fails', 48: 'Update display differs',
+    49: 'Update symbol differs', 50: 'Update description differs', 51: 'Update no unit with the ERC20 name and decimals',
+    52: 'Update ok (1-denom pair)', 53: 'Update ok (multi-denom pair)',
+    61: 'ConvertCoin refused by ValidateBasic', 62: 'ConvertCoin module disabled', 63: 'ConvertCoin denom index differs from token',
+    64: 'ConvertCoin not registered', 65: 'ConvertCoin id without pair (inconsistent registry only)', 66: 'ConvertCoin pair disabled',
+    67: 'ConvertCoin self-destruct clean-up', 68: 'ConvertCoin conversion proper',
+    71: 'ConvertERC20 refused by ValidateBasic', 72: 'ConvertERC20 module disabled', 73: 'ConvertERC20 denom not of the contract\'s pair',
+    74: 'ConvertERC20 not registered', 75: 'ConvertERC20 id without pair (inconsistent registry only)', 76: 'ConvertERC20 pair disabled',
+    77: 'ConvertERC20 self-destruct clean-up', 78: 'ConvertERC20 conversion proper',
+    81: 'EnableAggregate on', 82: 'EnableAggregate off',
+    91: 'genesis duplicate contract', 92: 'genesis pair without denominations', 93: 'genesis duplicate denomination',
+    94: 'genesis TokenPair.Validate refuses', 95: 'genesis ok',
+    99: 'environment step (deploy / destroy / mint / other aggregate proposals): registry must stay untouched',
+}
+# branches no consistent registry / validated metadata can reach (never expected in the distribution)
+UNREACHABLE = {8, 33, 44, 46, 65, 75}
 
 
 class Interner:
@@ -113,9 +156,10 @@ def case_term(I, r):
     for o in r['obs']:
         me = coq_list(['(%d%%nat, (%d%%nat, %d%%nat))' % (a, b, c if c >= 0 else 997) for a, b, c in o['me']])
         steps.append('{| os_op := %s; os_class := %d; os_after := %s; os_other := %d; os_toks := %s; os_ids := %s; '
-                     'os_me := %s; os_me_bad := %d |}' % (
+                     'os_me := %s; os_me_bad := %d; os_export := %d |}' % (
                          op_term(I, o), o['class'], state_term(I, o), o['other'],
-                         coq_list([I.b(t) for t in o['toks']]), coq_list([I.h(i) for i in o['ids']]), me, o['me_bad_pair']))
+                         coq_list([I.b(t) for t in o['toks']]), coq_list([I.h(i) for i in o['ids']]), me, o['me_bad_pair'],
+                         o.get('export', 0)))
     idtab = coq_list(['(%s, (%s, %s))' % (I.b(t), I.b(d), I.h(i)) for t, d, i in r['idtab']])
     canon = coq_list(['(%s, %s)' % (I.h(a), I.b(t)) for a, t in r['canon']])
     return '{| c_idtab := %s; c_canon := %s; c_evm_denom := %s; c_steps := %s |}' % (
@@ -123,6 +167,7 @@ def case_term(I, r):
 
 
 SHARD = 10
+BRANCH_COUNT = Counter()   # filled by evaluate(): branch code -> steps (model's classification of every step)
 
 
 def evaluate(workdir, results, tag='cases'):
@@ -138,13 +183,14 @@ def evaluate(workdir, results, tag='cases'):
             defs += 'Definition case%d : rcase := %s.\n' % (j, t)
         defs += 'Definition cases : list rcase := %s.\n' % coq_list(['case%d' % j for j in range(len(terms))])
         res = vlib.coq_eval_lists(workdir, '%s_%d.v' % (tag, i), HEADER, defs,
-                                  [('M', 'mismatches cases'), ('F', 'monitor_failures cases')])
+                                  [('M', 'mismatches cases'), ('F', 'monitor_failures cases'), ('Br', 'branches cases')])
         m = vlib.parse_nat_tuples(res.get('M'), 3)
         f = vlib.parse_nat_tuples(res.get('F'), 3)
-        if res['_rc'] != 0 or m is None or f is None:
+        br = vlib.parse_nat_tuples(res.get('Br'), 1)
+        if res['_rc'] != 0 or m is None or f is None or br is None:
             return ('error', res['_out'][-3000:])
         off = i * SHARD
-        return ([(h + off, s, k) for h, s, k in m], [(h + off, s, k) for h, s, k in f])
+        return ([(h + off, s, k) for h, s, k in m], [(h + off, s, k) for h, s, k in f], [b for (b,) in br])
 
     outs = vlib.parallel(one, list(enumerate(shards)), workers=14)
     mm, ff = [], []
@@ -153,6 +199,8 @@ def evaluate(workdir, results, tag='cases'):
             return None, o[1]
         mm += o[0]
         ff += o[1]
+        if tag == 'cases':
+            BRANCH_COUNT.update(o[2])
     return mm, ff
 
 
@@ -204,7 +252,7 @@ def shape(o):
     return tuple(sorted((len(p['denoms']), p['enabled'], p['owner']) for p in o['pairs']))
 
 
-def coverage(run, results, mm, ff):
+def coverage(run, results, mm, ff, branch_count):
     dist = Counter()
     nontrivial = set()
     steps = 0
@@ -228,30 +276,51 @@ def coverage(run, results, mm, ff):
                 dist['max_denoms_%d' % min(max(len(p['denoms']) for p in o['pairs']), 5)] += 1
             dist['minting_enabled_queries'] += len(o['toks']) ** 2
             dist['minting_enabled_ok'] += len(o['me'])
-    sample = None
+    dist['export_checked_steps'] = steps
+    dist['export_not_ok'] = sum(1 for r in results for o in r['obs'] if o.get('export', 0) != 0)
+    for b, n in sorted(branch_count.items()):
+        dist['branch_%02d_%s' % (b, BRANCHES.get(b, '?').replace(' ', '_'))] = n
+    never = sorted(b for b in BRANCHES if b not in branch_count and b not in UNREACHABLE)
+    run.coverage['branches_reached'] = len([b for b in branch_count if b in BRANCHES])
+    run.coverage['branches_never_reached'] = ['%d %s' % (b, BRANCHES[b]) for b in never]
+    run.coverage['branches_unreachable_by_invariant'] = ['%d %s' % (b, BRANCHES[b]) for b in sorted(UNREACHABLE)]
+    # samples: actual executed cases (spec + outcome classes): first directed, first witness, first two random sequences
+    samples = []
+    seen_kinds = set()
     for r in results:
-        if r['spec']['id'] >= 0:
-            sample = r['spec']
-            break
+        sid = r['spec']['id']
+        kind = 'directed' if sid <= -17 else ('witness' if sid < 0 else 'random')
+        if kind in seen_kinds and not (kind == 'random' and len([x for x in samples if x['kind'] == 'random']) < 2):
+            continue
+        seen_kinds.add(kind)
+        samples.append(dict(kind=kind, spec=r['spec'], classes=[o['class'] for o in r['obs']],
+                            pairs_after=[len(o['pairs']) for o in r['obs']]))
     run.coverage.update(dict(
         evaluations=steps, sequences=len(results), distinct_nontrivial=len(nontrivial),
         rule='operation sequences (RegisterCoin / AddCoin / RegisterERC20 / ToggleTokenRelay / UpdateTokenPairERC20 proposals through '
              'the gov router handler on a cache context, MsgConvertCoin / MsgConvertERC20, self-destructed contracts, EnableAggregate '
              'changes, genesis Validate+InitGenesis) on the real app; after every step the three raw store prefixes, the bank metadata and '
              'GetTokenPairID / MintingEnabled for all token strings of the case are compared with the model in Coq and the Consistent / '
-             'resolvable / convert-back monitors are evaluated on the implementation\'s dump; a step is non-trivial when the registry or '
+             'resolvable / convert-back / valid-denomination monitors are evaluated on the implementation\'s dump; after every step '
+             'ExportGenesis is validated and re-imported into an empty registry on the real code; a step is non-trivial when the registry or '
              'the metadata changed; distinct = distinct (operation, registry shape before, registry shape after)',
         distribution=dict(dist), model_mismatches=len(mm), monitor_failures=len(ff),
-        samples=[sample] if sample else []))
+        samples=samples))
     run.coverage['trusted_base'] += [
-        'hand-written model Model/Registry.v tied to x/aggregate by this differential run (generator bounds what it sees)',
+        'hand-written model Model/Registry.v + Model/RegistryExport.v tied to x/aggregate by this differential run (generator bounds '
+        'what it sees; measured reach: coverage.branches_reached / branches_never_reached)',
+        'translator tools/gotocoq/registry (go/parser): GetID operands, CreateDenom / CreateDenomDescription formats, Owner constants, '
+        'inventory of the functions that write the registry -> Gen/RegistryGen.v, obligations in Proofs/RegistrySource.v '
+        '(C12_source_tie, C12_real_getid_meets_oracles)',
         'oracles of the model: TokenPair.GetID (sha256) and Address.Hex (EIP-55) are tabulated from the real functions per case; '
-        'theorems assume GetID injective and non-empty, HexToAddress(Address.Hex(a)) = a',
+        'theorems assume GetID injective ON HEX-ADDRESS TEXTS and non-empty (derived in Coq from collision-freedom of sha256 for the '
+        'regenerated concatenation text|denom), HexToAddress(Address.Hex(a)) = a',
         'environment inputs observed on the real app right before each operation: QueryERC20 result, HasSupply, live contract accounts, '
         'the address the module account deploys next']
     run.assumptions += [
         'the address DeployERC20Contract creates (CreateAddress(module, nonce)) is not already in the ERC20 index (keccak collision resistance)',
-        'GetID (sha256 of "address|denom") is injective on (address text, first denomination)',
+        'sha256 (tmhash.Sum) is collision-free on the strings GetID hashes (text|denom with a hex-address text): then GetID is '
+        'injective on (address text, first denomination) - proved from the regenerated GetID, C12_real_getid_meets_oracles',
         'proposals reach the handler only after ValidateBasic (gov MsgSubmitProposal) and run on a cache context written only on success',
         'bank metadata is only written by x/aggregate and the bank genesis; the bank never removes metadata',
         'MintingEnabled is modelled for sender == receiver, not a blocked address']
@@ -259,6 +328,8 @@ def coverage(run, results, mm, ff):
 
 def check(run):
     pr = run.proof_stage()
+    if not run.quick():
+        run.coqchk_stage()
     ok, out = vlib.build_harness(['c12'])
     if not ok:
         run.violation(dict(kind='harness-build-failed', log=out[-3000:],
@@ -271,11 +342,21 @@ def check(run):
         run.violation(dict(kind='harness-crashed', log=o[-3000:]), no_input=True)
         return run.finish()
     results = vlib.read_jsonl(outp)
+    if not run.quick():
+        # thorough: a second pass of LONG histories (up to 40 operations: more pairs, more denominations per pair, several
+        # moves of one pair) from another seed
+        outl = os.path.join(run.work, 'out_long.jsonl')
+        rc, o = vlib.run_harness('c12', ['-seed', run.seed + 15485863, '-n', 60, '-steps', 32, '-out', outl])
+        if rc != 0:
+            run.violation(dict(kind='harness-crashed', log=o[-3000:]), no_input=True)
+            return run.finish()
+        results += [r for r in vlib.read_jsonl(outl) if r['spec']['id'] >= 0]
+    BRANCH_COUNT.clear()
     mm, ff = evaluate(run.work, results)
     if mm is None:
         run.violation(dict(kind='coq-evaluation-failed', log=ff), no_input=True)
         return run.finish()
-    coverage(run, results, mm, ff)
+    coverage(run, results, mm, ff, Counter(BRANCH_COUNT))
 
     def report_monitor(results, ff, prefix):
         reported = set()
@@ -320,7 +401,17 @@ def check(run):
                                       'types/token_pair.go, types/genesis.go)'),
                           name='replay_corr_h%d.json' % max(h, 0), no_input=True)
     if not run.violations and not run.proof_ok():
-        run.proof_violation()
+        # a proof obligation / the source tie (Gen/RegistryGen.v) broke while monitors and correspondence are silent on the
+        # standard budget: search the implementation side harder before reporting the obligation alone
+        outp3 = os.path.join(run.work, 'search_proof.jsonl')
+        rc, o = vlib.run_harness('c12', ['-seed', run.seed + 104729, '-n', run.budget(300, 1500), '-steps', 22, '-out', outp3])
+        if rc == 0:
+            res3 = vlib.read_jsonl(outp3)
+            mm3, ff3 = evaluate(run.work, res3, 'searchp')
+            if mm3 is not None and ff3:
+                report_monitor(res3, ff3, 'replay_search')
+        if not run.violations:
+            run.proof_violation()
     return run.finish()
 
 
